@@ -426,7 +426,7 @@ func CreateTokenExchangeResponse(
 func getTokenIDAndClaims(ctx context.Context, userinfoProvider UserinfoProvider, accessToken string) (string, string, *oidc.AccessTokenClaims, bool) {
 	tokenIDSubject, err := userinfoProvider.Crypto().Decrypt(accessToken)
 	if err == nil {
-		splitToken := strings.Split(tokenIDSubject, ":")
+		splitToken := strings.SplitN(tokenIDSubject, ":", 2)
 		if len(splitToken) != 2 {
 			return "", "", nil, false
 		}
